@@ -38,18 +38,8 @@ func ruleC16InitializeGating(c *Ctx) {
 		return g.s.sinkOf(cs) != "" || (cs.Target != nil && g.s.reachesSink(cs.Target))
 	}
 	isNoRootFact := func(ft Fact) bool {
-		be, ok := ast.Unparen(ft.E).(*ast.BinaryExpr)
-		if !ok {
-			return false
-		}
-		mentions := func(e ast.Expr) bool {
-			se, ok := ast.Unparen(e).(*ast.SelectorExpr)
-			return ok && info.Uses[se.Sel] == noRoot
-		}
-		if !(mentions(be.X) || mentions(be.Y)) {
-			return false
-		}
-		return be.Op == token.EQL && ft.Pos || be.Op == token.NEQ && !ft.Pos
+		known, equal := sentinelFact(info, ft, noRoot)
+		return known && equal
 	}
 	n := 0
 	for _, cs := range f.calls {
@@ -180,47 +170,37 @@ func ruleOverwriteProvenance(rule string) func(*Ctx) {
 		// inside OpenTapeWriteOnly: Truncate / SeekToRecordOnTape(…, 0) / opens without O_APPEND are control-dependent on `overwrite`
 		{
 			f := openW
-			info := f.Pkg.TypesInfo
 			ow := paramVar(f, "overwrite")
 			if ow == nil {
 				c.unresolved("parameter overwrite of OpenTapeWriteOnly")
 				return
 			}
-			fl := c.flow(f)
 			k := 0
-			for _, cs := range f.calls {
-				destructive := ""
-				o := cs.Callee
-				switch {
-				case isMethod(o, "os", "File", "Truncate"):
-					destructive = "Truncate"
-				case isMethod(o, "os", "File", "Seek") || isMethod(o, "os", "File", "WriteAt"):
-					destructive = o.Name()
-				case o != nil && o.Name() == "SeekToRecordOnTape":
-					destructive = "SeekToRecordOnTape"
-				case isPkgFunc(o, "os", "OpenFile") && len(cs.Call.Args) == 3:
-					flags := exprString(cs.Call.Args[1])
-					if strings.Contains(flags, "O_WRONLY") || strings.Contains(flags, "O_RDWR") {
-						if !strings.Contains(flags, "O_APPEND") {
-							destructive = "OpenFile without O_APPEND"
-						} else {
-							k++
-							c.ok(rule, f, fmt.Sprintf("open#%d", k), cs.Call.Pos(), true, "opened with O_APPEND")
-							continue
+			visited := map[*FuncInfo]bool{}
+			for _, st := range c.destructiveSites(f, ow, 0, visited) {
+				k++
+				if st.appendOpen {
+					c.ok(rule, f, fmt.Sprintf("open#%d", k), st.pos, true, "opened with O_APPEND")
+					continue
+				}
+				if !st.reach {
+					continue
+				}
+				c.verdictIf(st.guarded, rule, f, fmt.Sprintf("open#%d", k), st.pos, st.what+" only when overwrite was requested", st.what+" is reachable without overwrite having been requested: existing tape content can be destroyed on open")
+			}
+			// helpers that truncate/rewind are called from nowhere else
+			for _, g := range c.Funcs {
+				if visited[g] {
+					continue
+				}
+				for _, cs := range g.calls {
+					if cs.Target != nil && cs.Target != f && visited[cs.Target] {
+						var dummy = map[*FuncInfo]bool{}
+						if len(c.destructiveSites(cs.Target, nil, 1, dummy)) > 0 {
+							c.bad(rule, g, "calls "+cs.Target.Name, cs.Call.Pos(), "%s truncates or rewinds the drive and is called from outside OpenTapeWriteOnly's overwrite branch", cs.Target.Name)
 						}
 					}
-				case isPkgFunc(o, "os", "Create"):
-					destructive = "os.Create"
 				}
-				if destructive == "" {
-					continue
-				}
-				k++
-				okk, reach := fl.guardedBy(cs.Call, func(ft Fact) bool { return objOfIdent(info, ft.E) == types.Object(ow) && ft.Pos }, nil)
-				if !reach {
-					continue
-				}
-				c.verdictIf(okk, rule, f, fmt.Sprintf("open#%d", k), cs.Call.Pos(), destructive+" only when overwrite was requested", destructive+" is reachable without overwrite having been requested: existing tape content can be destroyed on open")
 			}
 			if k < half(4) {
 				c.unresolved("only %d open/truncate sites classified in OpenTapeWriteOnly", k)
@@ -265,4 +245,83 @@ func ruleOverwriteProvenance(rule string) func(*Ctx) {
 			}
 		}
 	}
+}
+
+type destructiveSite struct {
+	pos        token.Pos
+	what       string
+	guarded    bool // control-dependent on the overwrite flag being true
+	reach      bool
+	appendOpen bool
+}
+
+// destructiveSites lists, for f and (two levels of) the same-package helpers it calls, the operations that can destroy
+// existing drive content (Truncate, Seek/WriteAt, SeekToRecordOnTape, write-opens without O_APPEND, os.Create), each with
+// whether it is control-dependent on `ow` (the overwrite flag, re-bound across helper calls that receive it) being true.
+func (c *Ctx) destructiveSites(f *FuncInfo, ow *types.Var, depth int, visited map[*FuncInfo]bool) []destructiveSite {
+	visited[f] = true
+	info := f.Pkg.TypesInfo
+	fl := c.flow(f)
+	guard := func(n ast.Node) (bool, bool) {
+		if ow == nil {
+			_, reach := fl.guardedBy(n, func(Fact) bool { return false }, nil)
+			return false, reach
+		}
+		return fl.guardedBy(n, func(ft Fact) bool { return objOfIdent(info, ft.E) == types.Object(ow) && ft.Pos }, nil)
+	}
+	var out []destructiveSite
+	for _, cs := range f.calls {
+		destructive := ""
+		o := cs.Callee
+		switch {
+		case isMethod(o, "os", "File", "Truncate"):
+			destructive = "Truncate"
+		case isMethod(o, "os", "File", "Seek") || isMethod(o, "os", "File", "WriteAt"):
+			destructive = o.Name()
+		case o != nil && o.Name() == "SeekToRecordOnTape":
+			destructive = "SeekToRecordOnTape"
+		case isPkgFunc(o, "os", "OpenFile") && len(cs.Call.Args) == 3:
+			flags := exprString(cs.Call.Args[1])
+			if strings.Contains(flags, "O_WRONLY") || strings.Contains(flags, "O_RDWR") {
+				if !strings.Contains(flags, "O_APPEND") {
+					destructive = "OpenFile without O_APPEND"
+				} else {
+					out = append(out, destructiveSite{pos: cs.Call.Pos(), appendOpen: true, reach: true})
+					continue
+				}
+			}
+		case isPkgFunc(o, "os", "Create") || isPkgFunc(o, "os", "Truncate") || isPkgFunc(o, "os", "Remove") || isPkgFunc(o, "os", "WriteFile"):
+			destructive = "os." + o.Name()
+		}
+		if destructive != "" {
+			g, reach := guard(cs.Call)
+			out = append(out, destructiveSite{pos: cs.Call.Pos(), what: destructive, guarded: g, reach: reach})
+			continue
+		}
+		// same-package helper: its unguarded destructive operations happen at this call
+		if cs.Target == nil || cs.Target == f || cs.Target.Pkg != f.Pkg || cs.Target.Body() == nil || depth >= 2 {
+			continue
+		}
+		var bound *types.Var
+		if ow != nil {
+			sig := cs.Target.Obj.Type().(*types.Signature)
+			for i, a := range cs.Call.Args {
+				if i < sig.Params().Len() && objOfIdent(info, a) == types.Object(ow) {
+					bound = sig.Params().At(i)
+				}
+			}
+		}
+		gHere, reach := guard(cs.Call)
+		for _, st := range c.destructiveSites(cs.Target, bound, depth+1, visited) {
+			if st.appendOpen {
+				out = append(out, destructiveSite{pos: cs.Call.Pos(), appendOpen: true, reach: reach})
+				continue
+			}
+			if !st.reach {
+				continue
+			}
+			out = append(out, destructiveSite{pos: cs.Call.Pos(), what: cs.Target.Name + " -> " + st.what, guarded: gHere || st.guarded, reach: reach})
+		}
+	}
+	return out
 }
